@@ -133,6 +133,9 @@ func (w *Worker) callFunction(fn *ssa.Function, args []Val, bind []Val) Val {
 	if r, ok := w.intrinsic(fn, args); ok {
 		return r
 	}
+	if m := w.modelFor(fn); m != nil {
+		fn = m
+	}
 	if fn.Blocks == nil {
 		panic(engineError{"no body for " + fn.String() + " (called from " + w.curFn() + ")"})
 	}
@@ -1016,4 +1019,24 @@ func (w *Worker) rangeNext(x *ssa.Next, itv Val) Val {
 	}
 	tt := x.Type().(*types.Tuple)
 	return Tuple{ts.False, w.zero(tt.At(1).Type()), w.zero(tt.At(2).Type())}
+}
+
+// modelFor redirects calls of unencodable library functions (e.g. net/http.ReadResponse) to a
+// model written in Go in the harness package: func vModel_<path with _>_<Name>(...).
+func (w *Worker) modelFor(fn *ssa.Function) *ssa.Function {
+	if fn.Pkg == nil || w.cur == nil || fn.Blocks != nil && w.isHarnessFn(fn) {
+		return nil
+	}
+	if v, ok := w.models[fn]; ok {
+		return v
+	}
+	var m *ssa.Function
+	if fn.Signature.Recv() == nil && fn.Parent() == nil {
+		name := "vModel_" + strings.NewReplacer("/", "_", ".", "_").Replace(fn.Pkg.Pkg.Path()) + "_" + fn.Name()
+		if hp := w.cur.Fn.Pkg; hp != nil {
+			m = hp.Func(name)
+		}
+	}
+	w.models[fn] = m
+	return m
 }
